@@ -360,6 +360,7 @@ Proof. exact render_sites_skel_ok. Qed.
 From Coq Require Import String.
 Theorem C17_string_slice_guarded :
   exists st, string_slices = [st] /\ st_x st = "format.String()"%string /\ st_lo st = ""%string /\ st_guards st <> []
+    /\ forallb (fun g => match guard_len g 0 with Some _ => true | None => false end) (st_guards st) = true
     /\ forall len, (0 <= len)%Z ->
          forallb (fun g => match guard_len g len with Some b => b | None => false end) (st_guards st) = true ->
          exists hi, hi_len (st_hi st) len = Some hi /\ (0 <= hi <= len)%Z.
